@@ -36,7 +36,7 @@ def main() -> int:
     spec_failures, disagreements = [], []
     dist = {"statements": 0, "variants": {}, "per_dialect": {}, "rejected_by_parser": 0}
     n = 60 if quick else 1500
-    stmts = [astgen.gen_stmt(r, r.choice([0, 1, 2])) for _ in range(n)]
+    stmts = astgen.gen_batch(r, n, (0, 1, 2), shapes=30 if quick else 300)
     dialects = ["ansi", "mysql", "tsql"] if quick else list(QUOTE)
     for d in dialects:
         base = t2tie.summaries(sqltie.records(stmts, dialect=d))
